@@ -246,7 +246,11 @@ pub fn check(ctx: &mut Ctx, c: &Case) -> Result<(), String> {
         0 => {
             let mut client = Client::new_with_custom_tld_provider(auth, HProvider::new(ProviderKind::Default)).allows_insecure_localhost(true);
             let info = block_on(client.authenticator().get_info());
-            let req = cer::creation_options(site.rp, &c.challenge, b"c06-user", "user", &[-7], None, Some(cer::selection(None, false, cer::uv_req(c.uv_req))), prf_ext(c.prf_reg, &c.prf_input, c.raw_salt));
+            // the attestation conveyance preference of both requests varies with the case (none / indirect / direct / enterprise)
+            use passkey_types::webauthn::AttestationConveyancePreference as Att;
+            let att = [Att::None, Att::Indirect, Att::Direct, Att::Enterprise][(c.uv_req / 3) as usize % 4];
+            let mut req = cer::creation_options(site.rp, &c.challenge, b"c06-user", "user", &[-7], None, Some(cer::selection(None, false, cer::uv_req(c.uv_req))), prf_ext(c.prf_reg, &c.prf_input, c.raw_salt));
+            req.public_key.attestation = att;
             let res = match &c.extra {
                 Some(e) => block_on(client.register(site.origin(), req, DefaultClientDataWithExtra(e.clone()))),
                 None => block_on(client.register(site.origin(), req, DefaultClientData)),
@@ -276,7 +280,9 @@ pub fn check(ctx: &mut Ctx, c: &Case) -> Result<(), String> {
                 sc.scan_dbg("Debug of a stored passkey", &pk)?;
             }
             if res.is_ok() {
-                let res2 = block_on(client.authenticate(site.origin(), cer::request_options(site.rp, &c.challenge, None, cer::uv_req(c.uv_req), prf_ext(c.prf_auth, &c.prf_input, c.raw_salt)), DefaultClientData));
+                let mut req2 = cer::request_options(site.rp, &c.challenge, None, cer::uv_req(c.uv_req), prf_ext(c.prf_auth, &c.prf_input, c.raw_salt));
+                req2.public_key.attestation = att;
+                let res2 = block_on(client.authenticate(site.origin(), req2, DefaultClientData));
                 let mut sc2 = Scanner::new(&stored(&store));
                 match &res2 {
                     Ok(a) => {
@@ -284,6 +290,9 @@ pub fn check(ctx: &mut Ctx, c: &Case) -> Result<(), String> {
                         sc2.scan_dbg("assertion result", a)?;
                         sc2.scan("assertion authenticatorData", &a.response.authenticator_data)?;
                         sc2.scan("assertion signature", &a.response.signature)?;
+                        if let Some(ao) = &a.response.attestation_object {
+                            sc2.scan("assertion attestationObject", ao)?;
+                        }
                     }
                     Err(e) => sc2.scan_dbg("assertion error", e)?,
                 }
